@@ -186,6 +186,9 @@ namespace options
 
     void toggle::prepare()
     {
+        // forget the result of an earlier parse
+        given_ = 0;
+        dirty_ = false;
     }
 
     void toggle::check()
